@@ -307,7 +307,6 @@ pub fn gen_scheme_event(r: &mut StdRng, id: u64) -> Value {
         }
         fields.push((nm.clone(), t, r.random_range(0..2) == 0));
     }
-    // hand-made JSON text (the only way to express duplicates and alternative escapes)
     let mut text = String::from("{");
     for (i, (nm, t, opt)) in fields.iter().enumerate() {
         if i > 0 {
@@ -316,6 +315,27 @@ pub fn gen_scheme_event(r: &mut StdRng, id: u64) -> Value {
         text.push_str(&format!("{}:{{\"type\":{},\"optional\":{}}}", esc_name(r, nm), ty_json_text(t), opt));
     }
     text.push('}');
+    let fl: Vec<Value> = fields.iter().map(|(nm, t, opt)| {
+        let (p, lay) = layers_of(t);
+        json!({"nb": nm.as_bytes(), "prim": p, "lay": lay, "opt": opt})
+    }).collect();
+    let mut e = json!({"ev": "scheme", "id": id, "fields": fl, "dup": dup, "text": text});
+    let o = reobserve_scheme(&e);
+    e["de"] = o["de"].clone();
+    e["built"] = o["built"].clone();
+    e
+}
+
+/// observe what the engine does with the scheme JSON text (and, without duplicates, with the
+/// scheme built from the field list)
+pub fn reobserve_scheme(e: &Value) -> Value {
+    let text = e["text"].as_str().unwrap().to_string();
+    let dup = e["dup"].as_bool().unwrap();
+    let fields: Vec<(String, Ty, bool)> = e["fields"].as_array().unwrap().iter().map(|f| {
+        let nb: Vec<u8> = serde_json::from_value(f["nb"].clone()).unwrap();
+        let lay: Vec<u8> = serde_json::from_value(f["lay"].clone()).unwrap();
+        (String::from_utf8_lossy(&nb).to_string(), ty_from_layers(f["prim"].as_str().unwrap(), &lay), f["opt"].as_bool().unwrap())
+    }).collect();
     let de = json!({
         "str": scheme_outcome(catch_unwind(AssertUnwindSafe(|| serde_json::from_str::<Scheme>(&text)))),
         "slice": scheme_outcome(catch_unwind(AssertUnwindSafe(|| serde_json::from_slice::<Scheme>(text.as_bytes())))),
@@ -344,11 +364,7 @@ pub fn gen_scheme_event(r: &mut StdRng, id: u64) -> Value {
     } else {
         json!("dup")
     };
-    let fl: Vec<Value> = fields.iter().map(|(nm, t, opt)| {
-        let (p, lay) = layers_of(t);
-        json!({"nb": nm.as_bytes(), "prim": p, "lay": lay, "opt": opt})
-    }).collect();
-    json!({"ev": "scheme", "id": id, "fields": fl, "dup": dup, "text": text, "de": de, "built": built})
+    json!({"de": de, "built": built})
 }
 
 pub fn gen_type_event(r: &mut StdRng, id: u64) -> Value {
